@@ -333,4 +333,61 @@ def decrypt (C : CryptoFns) (kf : KeyFile) (pw : Bytes) : Except Err KeyStore :=
   | .error e => .error e
   | .ok e => keyStoreFromEntropy C e
 
+/-! ### operation sequences on one key file object
+
+`wallet.Manager` keeps ONE `*KeyFile` per path in its `encrypted` map for the lifetime of the node and decrypts that
+same object on every `Unlock` / `GetKeyFileAndDecrypt`; a caller of `ReadKeyFile` may equally decrypt its object any
+number of times, with right and wrong passwords, and `Write` it again. In the code `KeyFile.Decrypt` only READS the
+object (`aesGCMDecrypt` opens into a fresh buffer, `SetFromJSON` copies the salt reference): the model's step
+function returns the holder's key file untouched, and the driver compares the real object's fields with it after
+every operation. -/
+
+/-- operations on one in-memory key file object -/
+inductive KfOp
+  /-- `KeyFile.Decrypt(pw)` / `Manager.GetKeyFileAndDecrypt(path, pw)` -/
+  | decrypt (pw : Bytes)
+  /-- `Manager.Unlock(path, pw)` -/
+  | unlock (pw : Bytes)
+  /-- `Manager.Lock(path)` -/
+  | lock
+  /-- `KeyFile.Write()` followed by `ReadKeyFile`, continuing on the object read back -/
+  | writeRead
+  /-- the caller overwrites the entropy / seed of a key store it was handed (no effect on the key file) -/
+  | scrub
+  deriving DecidableEq, Repr
+
+/-- the object under test: the key file and, for a `Manager`, the entropy of the unlocked key store -/
+structure KfHolder where
+  kf : KeyFile
+  unlocked : Option Bytes
+  deriving DecidableEq, Repr
+
+/-- what an operation reports -/
+inductive KfOut
+  | entropy (r : Except Err Bytes)
+  | done
+  /-- the three byte fields read back by `ReadKeyFile`, `none` = JSON decoding error -/
+  | reread (r : Option (Bytes × Bytes × Bytes))
+
+def kfStep (C : CryptoFns) (h : KfHolder) : KfOp → KfHolder × KfOut
+  | .decrypt pw => (h, .entropy (decryptEntropy C h.kf pw))
+  | .unlock pw =>
+    match decryptEntropy C h.kf pw with
+    | .ok e => ({ h with unlocked := some e }, .entropy (.ok e))
+    | .error e => (h, .entropy (.error e))
+  | .lock => ({ h with unlocked := none }, .done)
+  | .writeRead =>
+    match h.kf.text.parse with
+    | some (c, n, s) => ({ h with kf := { h.kf with cipherData := c, nonce := n, salt := s } }, .reread (some (c, n, s)))
+    | none => (h, .reread none)
+  | .scrub => (h, .done)
+
+/-- a whole sequence: final holder and the outcomes in order -/
+def kfRun (C : CryptoFns) (h : KfHolder) : List KfOp → KfHolder × List KfOut
+  | [] => (h, [])
+  | op :: ops =>
+    let (h', o) := kfStep C h op
+    let (h'', os) := kfRun C h' ops
+    (h'', o :: os)
+
 end ZV.Wallet
